@@ -188,3 +188,6 @@ Theorem C19_heartbeat_option_ping_not_early : forall (o : opts) (d : Z) cfg g no
 Proof. exact heartbeat_option_ping_not_early. Qed.
 Theorem C19_heartbeat_option_zero_never_pings : forall (o : opts) cfg g now x, exists o', apply_opt o HEARTBEAT_IVL (i32_bytes 0) = inl o' /\ (c_hb_ivl cfg = ms_to_ns (cfg_heartbeat_ivl o') -> In x (snd (e_tick cfg g now)) -> ~ exists b z, x = OSend b z).
 Proof. exact heartbeat_option_zero_never_pings. Qed.
+(* the interval options read back as written, 0 (= off) included *)
+Theorem C19_heartbeat_option_get_after_set : forall (o : opts) (v : Z), (0 <= v <= 2147483647)%Z -> (exists o', apply_opt o HEARTBEAT_IVL (i32_bytes v) = inl o' /\ retrieve_opt o' HEARTBEAT_IVL = GOk (i32_bytes v)) /\ (exists o', apply_opt o HEARTBEAT_TIMEOUT (i32_bytes v) = inl o' /\ retrieve_opt o' HEARTBEAT_TIMEOUT = GOk (i32_bytes v)) /\ (exists o', apply_opt o HANDSHAKE_IVL (i32_bytes v) = inl o' /\ retrieve_opt o' HANDSHAKE_IVL = GOk (i32_bytes v)).
+Proof. exact heartbeat_get_after_set. Qed.
